@@ -357,3 +357,47 @@ TEXTS = {
     },
 }
 NOT_YET = {}
+
+TEXTS["C10"] = {
+    "text": ("Coq: (1) the property's statement as a predicate Erased on a mini-TS SUMMARY of one emitted module (bodies "
+             "empty / single placeholder return / placeholder super calls in constructors / placeholder arrow body; only "
+             "declarations; initialisers absent, placeholder or in the leavable grammar with erased function forms; every "
+             "parameter typed or with a retained leavable default; return type except constructors and setters; TS-private "
+             "members `any`-typed property declarations; no #private member but one marker; no decorators; ambient items "
+             "bodyless) with a decision procedure erasedb PROVED equivalent by induction over the nested mutual summary "
+             "family (C10_erasedb_correct and the per-layer iffs); (2) an executable Gallina MODEL of the transform on the "
+             "function-like fragment with, for ALL source function-likes, 'diagnostic or erased up to the known classes' "
+             "(C10_model_erased_or_diagnostic), strict erasure when the source has none of the three offending constructs "
+             "(C10_model_strict_outside_known_classes, C10_model_ctor), first-error = head of the collected diagnostics. "
+             "The full statement is refuted for the model by three witnesses, each confirmed on the real code in every run "
+             "(known findings F-C10a-c). Every module the real fast check emits for 143 spec-corpus worlds and thousands of "
+             "generated packages is judged by the extracted erasedb; the model's output (diagnostics or emitted shape) is "
+             "compared with the real transform on every public function-like of the model stream."),
+    "design_ref": "DESIGN.md section 5 C09-C11 shared machinery, C10",
+    "note": ("Trusted: Coq kernel; extraction; the SWC parser on emitter output; the Rust summarisers (emitted side "
+             "fcheck/sum.rs, source side fcheck/srcsum.rs) and the normalisation of emitted shapes (ids forgotten). Partial: "
+             "the transform model is of the function-like fragment; classes, properties, variable declarators, namespaces, "
+             "imports/exports are covered by the per-output judgement only; the tracer's choice of public ranges and "
+             "overload flags are inputs. Reading choices (leavable grammar, ambient pass-through, opaque enums, private "
+             "constructors) are stated at the top of coq/Model/RunC10.v."),
+    "technique": "Coq proof (decision procedure = declarative predicate by nested mutual induction; model theorems by the same induction over the source family) + refutation witnesses + per-output proved check on every real output + extracted-model differential testing of the transform on generated function-likes",
+}
+
+TEXTS["C11"] = {
+    "text": ("Coq: the property's statement as a relation ApiPreserved on (summary of the original module, summary of the "
+             "emitted module, entrypoint flag, resolved export name sets, intent-dropped names): emitted exports subset of the "
+             "original's and equal at entrypoints; emitted items = an ordered sub-list of the original items (plus synthesised "
+             "expando namespaces) each matching its original in kind, name, export form, type parameters, heritage clauses, "
+             "written annotation texts and member signatures modulo the documented optional/default-parameter normalisation "
+             "and the documented erasures; intent-dropped names absent. Decision procedure api_preservedb (greedy sub-list "
+             "matching, split search for synthesised members/namespaces) PROVED equivalent (C11_api_preservedb_correct and "
+             "per-layer iffs). Judged on every (original, emitted) pair of 143 spec-corpus worlds and thousands of generated "
+             "packages with recorded intent; one defect found and recorded (F-C11a), with a Coq witness on the summaries of "
+             "the real pair."),
+    "design_ref": "DESIGN.md section 5 C09-C11 shared machinery, C11",
+    "note": ("Trusted: Coq kernel; extraction; the Rust summariser and string interner; SWC's printer for canonical annotation "
+             "texts; the real symbol API for both export name sets (second graph built from emitted texts); the generator's "
+             "intent bookkeeping. Not a proof about the tracer or the transform: a proved-correct checker evaluated on real "
+             "pairs (the tracer model of C09 is not built in this check)."),
+    "technique": "Coq proof (decision procedure = declarative relation, incl. correctness of greedy ordered sub-list matching) + per-pair proved check on every real (original, emitted) pair with generator-recorded intent as oracle",
+}
